@@ -1,7 +1,7 @@
 """C10 Requests act only on the addressed unit; broadcast acts on all."""
 from hypothesis import strategies as st
 
-from vlib import frontends, kinds, model, pm, refframe, specpdu
+from vlib import frontends, gens, kinds, model, pm, refframe, specpdu
 from vlib.engine import Disc, Outcome
 from checks import c04, c09
 
@@ -66,7 +66,9 @@ def _case(draw):
     return {'frontend': fe, 'framing': framing, 'single': single, 'hosted': hosted,
             'ignore_missing_slaves': draw(st.booleans()), 'broadcast_enable': bcast, 'steps': steps,
             # units may have tables of different sizes: a broadcast can be legal for one unit and not for another
-            'sizes': [draw(st.sampled_from([40, 40, 21, 6, 39])) for _ in hosted]}
+            'sizes': [draw(st.sampled_from([40, 40, 21, 6, 39])) for _ in hosted],
+            # stream front-ends: the request stream may arrive cut at arbitrary byte positions
+            'cuts': draw(st.one_of(st.none(), st.none(), gens.cuts())) if fe in frontends.STREAM else None}
 
 
 def strategy(tier):
@@ -158,7 +160,11 @@ def run_case(case):
             expect.append(('none', uid, i + 1, None))
     if framing == 'binary' and any(any(b in (0x7B, 0x7D) for b in fr[1:-1]) for fr in frames):
         return Outcome([], labels + ['excluded-binary-delimiter'], False)
-    res = frontends.run(fe, framing, ctx, [(0, fr) for fr in frames], ignore_missing_slaves=ignore, broadcast_enable=bcast)
+    script = [(0, fr) for fr in frames]
+    if case.get('cuts') and fe in frontends.STREAM:
+        script = [(0, c) for c in gens.apply_cuts(b''.join(frames), case['cuts']) if c]
+        labels.append('byte-level-cuts')
+    res = frontends.run(fe, framing, ctx, script, ignore_missing_slaves=ignore, broadcast_enable=bcast)
     discs = []
     for c, e in res.escaped:
         discs.append(Disc('escaped', '%s/%s: %s' % (fe, framing, e)))
